@@ -399,6 +399,7 @@ func (gen *Generator) convertTable(dir, filename string, checkProtoFileConflicts
 			debugBookName += " (alias: " + alias + ")"
 		}
 		bp = newTableParser(bookName, alias, rewrittenBookName, gen)
+		bp.mergeBookOptions(bookOpts)
 		// cache this new tableParser
 		gen.addBookParser(absPath, bp)
 	} else {
